@@ -21,6 +21,11 @@ func fieldVal[T any](obj yobj, key string) (v T, ok bool, err error) {
 	}
 
 	if val == nil {
+		// A null object cannot be modified in place, so consider it absent.
+		if _, isObj := any(v).(yobj); isObj {
+			return v, false, nil
+		}
+
 		return v, true, nil
 	}
 
